@@ -174,7 +174,7 @@ def run_item(item, workdir, paths):
             for n in names:
                 gd[n] = _outcome(lambda: t.get_def(n).render(**ctx))
             res["get_def"] = {"defs": gd}
-    need_files = [p for p in paths if p in ("file", "moddir", "moddir2", "moduletemplate", "cmd", "uri-spellings", "modulename_callable", "get_def_file")]
+    need_files = [p for p in paths if p in ("file", "moddir", "moddir2", "moddir3", "moduletemplate", "cmd", "uri-spellings", "modulename_callable", "get_def_file")]
     if need_files and not os.path.isdir(src):
         write_files(item, src)
     if "file" in paths:
@@ -212,6 +212,31 @@ def run_item(item, workdir, paths):
         except BaseException as e:  # noqa
             res["moddir2"] = {"render": "EXC:%s at construction" % type(e).__name__}
         res["moddir2"]["regenerated"] = _mtimes(mods) != stamp
+    if "moddir3" in paths:
+        # the module files now claim to come from another generation of the library (a larger and a smaller magic number,
+        # alternating per file) and would print a marker if they were executed as they are: they have to be regenerated
+        n_ = 0
+        for p_ in sorted(_mtimes(mods)):
+            with open(p_) as f_:
+                code_ = f_.read()
+            m_ = re.search(r"^_magic_number = (\d+)$", code_, re.M)
+            if not m_ or "def render_body(" not in code_:
+                continue
+            other_ = int(m_.group(1)) + (1 if n_ % 2 == 0 else -1)
+            n_ += 1
+            code_ = code_[: m_.start()] + "_magic_number = %d" % other_ + code_[m_.end():]
+            code_ += "\n_foreign_render_body = render_body\n\n\ndef render_body(context, *a, **k):\n    context.write('FOREIGN-MODULE')\n    return _foreign_render_body(context, *a, **k)\n"
+            st_ = os.stat(p_)
+            with open(p_, "w") as f_:
+                f_.write(code_)
+            os.utime(p_, ns=(st_.st_atime_ns, st_.st_mtime_ns))
+        L = lk(directories=[src], module_directory=mods)
+        try:
+            t = L.get_template(main)
+            res["moddir3"] = _facts(t, ctx)
+        except BaseException as e:  # noqa
+            res["moddir3"] = {"render": "EXC:%s at construction" % type(e).__name__}
+        res["moddir3"]["rewritten"] = n_
     if "uri-spellings" in paths and not any(
         re.search(r"\.uri\b|\bU\(|\.filename\b|_template_uri|\bdescribe\(", str(text)) for text in item["files"].values()
     ):
